@@ -230,7 +230,7 @@ func framesKey(frames []string, n int) string {
 	if len(ks) == 0 {
 		return "no-wuffs-frame"
 	}
-	return strings.Join(ks, "<")
+	return strings.Join(ks, "^")
 }
 
 // cycleKey: the sorted set of distinct wuffs functions among the top frames
